@@ -24,125 +24,16 @@ EXPLANATION = (
 ASSUMPTIONS = ["str.replace/split/isdigit/int behave as documented"]
 
 
-@rule(P, "D15.1", "T-DATAFLOW", floor=4)
+@rule(P, "D15.1", "T-WITNESS", floor=20)
 def d15_1(ctx):
-    """Separators `\\` and `,` are normalised to `/` before splitting; host:port split; TCP port range guard raises RequestError."""
-    fn = ctx.model.func(f"{CD}:parse_connection_path")
-    f = fn.node
-    pathp = f.args.args[0].arg
-    pairs = set()
-    norm_line = None
-    for n in walk(f):
-        if isinstance(n, ast.Assign) and atom_name(n.targets[0]) == pathp:
-            v = n.value
-            while isinstance(v, ast.Call) and isinstance(v.func, ast.Attribute) and v.func.attr == "replace" and len(v.args) == 2:
-                a, b = ctx.folder.eval(v.args[0], fn.module), ctx.folder.eval(v.args[1], fn.module)
-                pairs.add((a, b))
-                v = v.func.value
-            if atom_name(v) == pathp:
-                norm_line = n.lineno
-    splits = [n for n in walk(f) if isinstance(n, ast.Call) and attr_path(n.func) == f"{pathp}.split" and ctx.folder.eval(n.args[0], fn.module) == "/"]
-    good = pairs == {("\\", "/"), (",", "/")} and len(splits) == 1 and norm_line is not None and norm_line < splits[0].lineno
-    ctx.check(good, ckey(fn, "separators"), f, "`\\` and `,` become `/` before the split", f"separator normalisation is {sorted(pairs)} (must map both `\\` and `,` to `/` before splitting on `/`)", pairs=sorted(map(str, pairs)))
-    # first element is the host, the rest the route
-    tgt = None
-    for n in walk(f):
-        if isinstance(n, ast.Assign) and n.value in splits and isinstance(n.targets[0], ast.Tuple):
-            tgt = n.targets[0]
-    good = tgt is not None and len(tgt.elts) == 2 and isinstance(tgt.elts[1], ast.Starred)
-    host = atom_name(tgt.elts[0]) if good else None
-    route = atom_name(tgt.elts[1].value) if good else None
-    ctx.check(good, ckey(fn, "host-route"), f, f"first segment is the host (`{host}`), the rest is the route (`{route}`)", "the split result is not unpacked as host, *route")
-    # port split and range
-    g = ctx.cfg(f)
-    port_var = None
-    for n in walk(f):
-        if isinstance(n, ast.Assign) and isinstance(n.value, ast.Call) and call_name(n.value) == "int" and atom_name(n.targets[0]) == atom_name(n.value.args[0]):
-            port_var = atom_name(n.targets[0])
-    lo_ok = hi_ok = False
-    facts = {}
-    for t in g.nodes:
-        if t.kind != "test" or port_var is None or port_var not in {x.id for x in walk(t.ast) if isinstance(x, ast.Name)}:
-            continue
-        raised, cont = branch_outcome(g, t, True)
-        raised_f, cont_f = branch_outcome(g, t, False)
-        if raised == {"RequestError"} and not cont:
-            rejecting = True
-        elif raised_f == {"RequestError"} and not cont_f:
-            rejecting = False
-        else:
-            continue
-        # the test touches the port only through comparisons with constants: its truth value is constant between
-        # consecutive constants, so evaluating it at every constant and its two neighbours decides it for all integers
-        consts = sorted({v for x in walk(t.ast) for v in [ctx.folder.eval(x, fn.module)] if isinstance(x, (ast.Constant, ast.Name, ast.Attribute)) and isinstance(v, int) and not isinstance(v, bool)})
-        if not consts or any(isinstance(x, (ast.Call, ast.Subscript)) for x in walk(t.ast)):
-            continue
-        points = sorted({c + d for c in consts + [0, 65535] for d in (-1, 0, 1)})
-        rej = {}
-        for v in points:
-            r = ctx.folder.eval(t.ast, fn.module, env={port_var: v})
-            if r is UNKNOWN:
-                rej = None
-                break
-            rej[v] = bool(r) == rejecting
-        if rej is None:
-            continue
-        rejected = [v for v in points if rej[v]]
-        accepted = [v for v in points if not rej[v]]
-        facts = {"rejected_samples": rejected, "accepted_samples": accepted}
-        lo_ok = all(rej[v] for v in points if v <= 0)
-        hi_ok = all(rej[v] for v in points if v >= 65536) and all(not rej[v] for v in points if 1 <= v <= 65534)
-    ctx.check(port_var is not None and lo_ok and hi_ok, ckey(fn, "port-range"), f, "ports <= 0 and > 65535 raise RequestError, 1..65534 are accepted (decided on the finite set of orderings around the constants)", f"TCP port guard rejects {facts}; ports <= 0 and > 65535 must raise RequestError", **facts)
-    # host:port split, decided on representatives of the colon-count classes of the host segment (one colon, several colons,
-    # empty sides): the splitting statement is folded on each witness, bound like Python binds it, and the port text goes
-    # through int(); a witness is accepted when nothing on that way fails.  Accepted hosts must be colon-free.
-    none_else = any(isinstance(n, ast.Assign) and atom_name(n.targets[0]) == port_var and isinstance(n.value, ast.Constant) and n.value.value is None for n in walk(f))
-    split_st = [n for n in walk(f) if isinstance(n, ast.Assign) and host in {x.id for x in walk(n.value) if isinstance(x, ast.Name)} and any(isinstance(c, ast.Constant) and c.value == ":" for c in walk(n.value))
-                and port_var in {x.id for t in n.targets for x in walk(t) if isinstance(x, ast.Name)}]
-    verdicts, problems = {}, []
-    if len(split_st) == 1 and host is not None and port_var is not None:
-        st = split_st[0]
-        contained = in_try_with_handler(st, f, {"ValueError"}) is not None
-        for w in ("h:1", "h:1:2", "h::2", "h:1:", "1.2.3.4:44818", "1.2.3.4:4:4818"):
-            v = ctx.folder.eval(st.value, fn.module, env={host: w})
-            if v is UNKNOWN:
-                verdicts[w] = "undecided"
-                continue
-            env, tgt_ = {}, st.targets[0]
-            if isinstance(tgt_, ast.Tuple):
-                names = [atom_name(e) for e in tgt_.elts]
-                if any(isinstance(e, ast.Starred) for e in tgt_.elts) or not isinstance(v, (list, tuple)):
-                    verdicts[w] = "undecided"
-                    continue
-                if len(v) != len(names):
-                    verdicts[w] = "rejected (unpacking fails)" if contained else "unpacking fails outside any handler"
-                    continue
-                env = dict(zip(names, v))
-            else:
-                verdicts[w] = "undecided"
-                continue
-            h_, p_ = env.get(host), env.get(port_var)
-            try:
-                int(p_)
-            except (ValueError, TypeError):
-                verdicts[w] = "rejected (port text is not a number)"
-                continue
-            verdicts[w] = f"accepted host={h_!r} port={p_!r}"
-            if ":" in str(h_) or str(h_) != w.split(":")[0] or w.count(":") != 1:
-                problems.append(f"{w!r} -> host {h_!r}, port {p_!r}")
-        if "undecided" in verdicts.values():
-            ctx.undecided(ckey(fn, "port-split"), st, f"host/port split `{src(st)}` not evaluable on witnesses: {verdicts}")
-        else:
-            single_ok = verdicts.get("h:1", "").startswith("accepted") and verdicts.get("1.2.3.4:44818", "").startswith("accepted")
-            ctx.check(not problems and single_ok and none_else, ckey(fn, "port-split"), st, "one colon splits host and port; a segment with more colons is rejected; port None when absent",
-                      f"host/port split `{src(st)}` accepts malformed host segments: {problems or verdicts}" if problems or not single_ok else "the port is not None when the host segment has no colon", verdicts=verdicts)
-    else:
-        ctx.undecided(ckey(fn, "port-split"), f, f"host/port splitting statement not identified ({len(split_st)} candidates)")
-    rets = [r for r in walk(f) if isinstance(r, ast.Return)]
-    good = len(rets) == 1 and isinstance(rets[0].value, ast.Tuple) and [atom_name(x) for x in rets[0].value.elts][:2] == [host, port_var]
-    calls = [c for c in walk(f) if isinstance(c, ast.Call) and call_name(c) == "parse_cip_route"]
-    good = good and len(calls) == 1 and atom_name(calls[0].args[0]) == route and len(calls[0].args) == 2 and atom_name(calls[0].args[1]) == f.args.args[1].arg
-    ctx.check(good, ckey(fn, "returns"), f, "returns (host, port, parse_cip_route(route, auto_slot))", "the parser does not return host, port and the route parsed with the auto_slot flag")
+    """Separators `\\` and `,` are normalised to `/` before splitting; host:port split; TCP port range; the rest of the path and the
+    auto-slot flag go to the route parser, whose shortcuts apply only when asked for.  Decided by folding parse_connection_path on
+    22 witness path strings (D15.12) and parse_cip_route on 17 (D15.11); an earlier form traced the `replace` / `split` calls and the
+    port comparison through the function's locals."""
+    from .driver import _conn_path_rule, _route_rule
+
+    _conn_path_rule(ctx)
+    _route_rule(ctx)
 
 
 def _d15_2_shortcuts(ctx):
